@@ -3,6 +3,7 @@ use serde_json::Value;
 
 pub mod c01;
 pub mod c02;
+pub mod c03;
 pub mod c06;
 pub mod c07;
 pub mod c08;
@@ -25,6 +26,7 @@ pub type ReplayFn = fn(&Run, &str, &Value) -> Option<bool>;
 pub const REGISTRY: &[(&str, &str, RunFn, ReplayFn)] = &[
     ("C01", "exploration", c01::run, c01::replay),
     ("C02", "exploration", c02::run, c02::replay),
+    ("C03", "exploration", c03::run, c03::replay),
     ("C06", "fault_enumeration", c06::run, c06::replay),
     ("C07", "fault_enumeration", c07::run, c07::replay),
     ("C08", "exploration", c08::run, c08::replay),
